@@ -23,7 +23,7 @@ PROBES = {
     "C08": ["call:accept-first", "call:reject-then-accept", "call:exhausted", "call:raise-first-trial",
             "call:raise-after-reject", "call:zero-step", "reject=0", "strategy:Constant", "strategy:Adaptive",
             "strategy:TrustRegion", "damping:clamped-min", "damping:clamped-max", "trust:down-shrunk",
-            "trust:down-reset", "GN", "group-param", "float32", "scripted", "ctor-defaults", "input-form:dict", "input-form:list", "input-form:single"],
+            "trust:down-reset", "GN", "group-param", "float32", "scripted", "ctor-defaults", "zero-residual-start", "input-form:dict", "input-form:list", "input-form:single"],
     "C07": ["lm:first-trial", "lm:trial>=2", "gn", "weights:RR", "weights:NRR", "weights:full", "weights:refreshed-in-place", "weights:per-call-alternating", "kernel", "triggs",
             "clamp-min-bites", "clamp-max-bites", "frozen-param", "group-param", "vectorize-off", "two-residuals",
             "unused-columns", "ctor-defaults", "input-form:dict", "input-form:list", "input-form:single"],
@@ -359,6 +359,9 @@ def execute(plan, prop, out, tr):
     targets = None
     if c["target"]:
         targets = [rng.randn(s, ("tgt", j), tuple(o.shape), dtype, 0.3) for j, o in enumerate(outs0)]
+        if rng.H(s, "zero-start") % 6 == 0:
+            targets = [o.detach().clone() for o in outs0]       # the model starts exactly at a zero residual
+            out.probe("zero-residual-start")
     target_arg = None if targets is None else (targets if len(targets) > 1 else targets[0])
     weight = _weights(s, c["weights"], outs0, dtype)
     kern = None
